@@ -17,7 +17,7 @@ CLANGXX := clang++
 WORLD_GRIDS := profile raster_rook raster_queen raster_bishop raster_queen_nc raster_rook_nc trimesh
 
 .PHONY: all pool world clean
-all: pool world
+all: pool
 pool: $(B)/addr/pool $(B)/tsan/pool
 world: $(B)/addr/world $(B)/tsan/world
 
